@@ -1792,7 +1792,9 @@ class UTPM(Ring, RawAlgorithmsMixIn):
         """ extracts the Jacobian vector product from a UTPM instance
         if x.ndim == 1 it is equivalent to the gradient
         """
-        return x.data[1,...].transpose([i for i in range(1,x.data[1,...].ndim)] + [0])[:,0]
+        # first-order coefficient of the single direction; works for scalar-,
+        # vector- and matrix-valued functions alike
+        return x.data[1,0,...]
 
 
     @classmethod
